@@ -326,7 +326,7 @@ func (self *AofFile) ReadLock(lock *AofLock) error {
 	if n != int(lockLen)+2 {
 		nn, nerr := self.rbuf.Read(buf[n:64])
 		if nerr != nil {
-			return err
+			return nerr
 		}
 		n += nn
 		if n != int(lockLen)+2 {
